@@ -35,9 +35,19 @@ def all_shapes():
     return out
 
 
-def make(ctx, shape, pfx=''):
+def make(ctx, shape, pfx='', alias=False):
     wts = [ctx.reals('%sw%d_' % (pfx, i), n) for i, n in enumerate(shape)]
     pos = [ctx.reals('%sx%d_' % (pfx, i), n) for i, n in enumerate(shape)]
+    if alias:
+        # repeated positions / weights: the SAME value occupies several slots (within a factor and across factors)
+        for p in pos:
+            if len(p) > 1:
+                p[1] = p[0]
+        if len(pos) > 1:
+            pos[1][-1] = pos[0][0]
+        for w in wts:
+            if len(w) > 2:
+                w[2] = w[0]
     return wts, pos
 
 
@@ -58,11 +68,11 @@ def pack_order(factors):
     return out
 
 
-def roundtrips(shape):
+def roundtrips(shape, alias=False):
     def h(ctx):
         import mystic.math.discrete as md
         import mystic.math.measures as mm
-        wts, pos = make(ctx, shape)
+        wts, pos = make(ctx, shape, alias=alias)
         c = md.compose([list(p) for p in pos], [list(w) for w in wts])
         obs = [('compose-keeps-weights', nested_eq(c.wts, wts)), ('compose-keeps-positions', nested_eq(c.pos, pos)),
                ('pts', const(list(c.pts) == list(shape)))]
@@ -85,6 +95,9 @@ def roundtrips(shape):
         obs.append(('pack-order', const(len(packed) == len(pack_order(pos))) if len(packed) != len(pack_order(pos)) else
                     And(*[veq(list(a), list(b)) for a, b in zip(packed, pack_order(pos))])))
         obs.append(('unpack-pack', nested_eq(mm._unpack(packed, list(shape)), pos)))
+        c5 = md.compose([list(p) for p in pos], [list(w) for w in wts])
+        c5.positions = c5.positions            # the positions setter unpacks the product points back into the factors
+        obs.append(('positions-setter-round-trip', nested_eq(c5.pos, pos)))
         obs.append(('nested-flat', nested_eq(mm._nested(mm._flat([list(p) for p in pos]), list(shape)), pos)))
         ws, xs = mm.split_param(list(flat), list(shape))
         obs.append(('split_param', And(veq(ws, [v for w_ in wts for v in w_]), veq(xs, [v for p in pos for v in p]))))
@@ -145,14 +158,37 @@ def statistics(shape):
         u = c.pof(G)
         gx = [g(list(p)) for p in pts]
         obs.append(('pof-is-weight-of-failing-points', eq(u, sumv([ite(le(gv, 0), wv, R(0)) for gv, wv in zip(gx, pw)]))))
+        return obs
+    return h
+
+
+def support_sets(shape):
+    def h(ctx):
+        import mystic.math.discrete as md
+        wts, pos = make(ctx, shape)
+        for w in wts:
+            for v in w:
+                ctx.assume(ge(v, 0))
+            ctx.assume(gt(sumv(w), 0))
+        c = md.compose([list(p) for p in pos], [list(w) for w in wts])
+        pts = pack_order(pos)
+        pw = []
+        for combo in pack_order(wts):
+            v = R(1)
+            for t in combo:
+                v = v * t
+            pw.append(v)
+        obs = []
+        tol = ctx.real('tol')
+        ctx.assume(ge(tol, 0))
+        sup_t = c.support(tol)
+        want_t = [p for p, wv in zip(pts, pw) if bool(gt(wv, tol))]
+        obs.append(('support(tol)-is-points-with-weight-above-tol', And(*[veq(list(a), list(b)) for a, b in zip(sup_t, want_t)]) if len(sup_t) == len(want_t) else const(False)))
+        idx = c.support_index(tol)
+        obs.append(('support_index(tol)', const(list(idx) == [i for i, wv in enumerate(pw) if bool(gt(wv, tol))])))
         sup = c.support()
-        want = [p for p, wv in zip(pts, pw)]
-        # support = positions whose product weight is > 0, in order
-        sel = []
-        k = 0
-        ok = const(True)
-        flags = [gt(wv, 0) for wv in pw]
-        obs.append(('support-size', eq(len(sup), sumv([ite(fl, R(1), R(0)) for fl in flags]))))
+        want = [p for p, wv in zip(pts, pw) if bool(gt(wv, 0))]
+        obs.append(('support-is-points-with-positive-weight', And(*[veq(list(a), list(b)) for a, b in zip(sup, want)]) if len(sup) == len(want) else const(False)))
         return obs
     return h
 
@@ -290,12 +326,16 @@ def instances(tier, seed):
     for sh in shapes:
         tag = 'x'.join(map(str, sh))
         out.append(Instance('roundtrips/%s' % tag, roundtrips(sh)))
+        if max(sh) > 1:
+            out.append(Instance('roundtrips/%s/repeated-values' % tag, roundtrips(sh, alias=True)))
         out.append(Instance('structure/%s' % tag, structure(sh), context_free_first=True))
         npts = 1
         for n in sh:
             npts *= n
         if npts <= (6 if q else 9):
             out.append(Instance('statistics/%s' % tag, statistics(sh), context_free_first=True))
+        if npts <= 4:
+            out.append(Instance('support/%s' % tag, support_sets(sh)))
             out.append(Instance('scenario/%s' % tag, scenarios(sh), context_free_first=True))
         for k in range(1, len(sh) + 1):
             out.append(Instance('update/%s/first=%d' % (tag, k), update(sh, k)))
